@@ -1,4 +1,6 @@
 import WhatIs.Model.Keys
+import WhatIs.Model.SshWire
+import WhatIs.Lemmas.SshWire
 /-
   Props/C02.lean — PROPERTY THEOREMS for C02 (keys are described truthfully in every container).
   `n`, `p` range over ALL naturals (every bit length, not only multiples of 8).
@@ -66,5 +68,49 @@ example : bitLen 1025 = 11 ∧ byteLen 1025 * 8 = 16 := by decide
 example : asn1Attrs (.rsa 1025) = [⟨sb "Algorithm", sb "RSA"⟩, ⟨sb "Size", sb "11 bits"⟩] := by decide
 example : sshAttrs (sb "ssh-ed25519") (sb "a@b") .ed25519 =
     [⟨sb "Type", sb "ssh-ed25519"⟩, ⟨sb "Comment", sb "a@b"⟩, ⟨sb "Algorithm", sb "EdDSA"⟩, ⟨sb "Curve", sb "Ed25519"⟩] := by decide
+
+-- OPENSSH PUBLIC KEYS FROM THE BYTES OF THE BLOB (Model/SshWire.lean: x/crypto's ssh.ParsePublicKey) -------------------
+open WhatIs.SshWire WhatIs.Spec.SshWireText WhatIs.Lemmas.SshWire in
+/-- RFC 4251 §5 mpint: every non-negative number whose content fits a uint32 length is read back, whatever follows -/
+theorem ssh_mpint_readback (n : Nat) (hl : mpintLen n < 4294967296) (rest : Bytes) :
+    parseInt (mpint n ++ rest) = some ((n : Int), rest) := parseInt_mpint n hl rest
+
+open WhatIs.SshWire WhatIs.Spec.SshWireText WhatIs.Lemmas.SshWire in
+/-- THE ssh-rsa BLOB (RFC 4253 §6.6) written for ANY odd exponent 3 ≤ e < 2^24 and ANY modulus n is parsed to exactly
+    (e, n) -/
+theorem ssh_rsa_blob_readback (e n : Nat) (he3 : 3 ≤ e) (hodd : e % 2 = 1) (he : e < 16777216)
+    (hn : mpintLen n < 4294967296) :
+    parsePublicKey (rsaBlob e n) = .ok sshRsa (.rsa (e : Int) (n : Int)) :=
+  parsePublicKey_rsaBlob e n he3 hodd he hn
+
+open WhatIs.SshWire WhatIs.Spec.SshWireText WhatIs.Lemmas.SshWire in
+/-- … and described with the type label it stores and the BIT LENGTH of the modulus it stores — for every modulus, from
+    the bytes of the blob (the container decoding is no longer a hypothesis for this container) -/
+theorem ssh_rsa_blob_described (e n : Nat) (he3 : 3 ≤ e) (hodd : e % 2 = 1) (he : e < 16777216)
+    (hn : mpintLen n < 4294967296) :
+    sshBlobAttrs (rsaBlob e n) =
+      some [⟨sb "Type", sb "ssh-rsa"⟩, ⟨sb "Algorithm", algName "RSA"⟩, sizeAttr (bitLen n)] := by
+  unfold sshBlobAttrs
+  rw [parsePublicKey_rsaBlob e n he3 hodd he hn]
+  simp [sshAttrs, toPub, cryptoAttrs, rsa_size_is_bitlen_fact, sshRsa, sb, strBytes]
+
+open WhatIs.SshWire WhatIs.Spec.SshWireText WhatIs.Lemmas.SshWire in
+/-- THE ssh-ed25519 BLOB (RFC 8709 §4) of any 32 octets -/
+theorem ssh_ed25519_blob_readback (k : Bytes) (hk : k.length = 32) :
+    parsePublicKey (ed25519Blob k) = .ok sshEd25519 (.ed25519 k) := parsePublicKey_ed25519Blob k hk
+
+section sshwitnesses
+open WhatIs.SshWire WhatIs.Spec.SshWireText
+/-- the blob of (e = 65537, n = 2^15 + 1): "ssh-rsa", 01 00 01, 00 80 01 (a zero octet keeps the number positive) -/
+example : rsaBlob 65537 32769 = [0, 0, 0, 7] ++ strBytes "ssh-rsa" ++ [0, 0, 0, 3, 1, 0, 1] ++ [0, 0, 0, 3, 0, 128, 1] := by decide
+example : sshBlobAttrs (rsaBlob 65537 32769) =
+    some [⟨sb "Type", sb "ssh-rsa"⟩, ⟨sb "Algorithm", sb "RSA"⟩, ⟨sb "Size", sb "16 bits"⟩] := by decide
+/-- refused: an even exponent, an exponent of 25 bits, trailing octets, a truncated length -/
+example : parsePublicKey (rsaBlob 65536 32769) = .err ∧ parsePublicKey (rsaBlob 16777217 32769) = .err ∧
+    parsePublicKey (rsaBlob 65537 32769 ++ [0]) = .err ∧ parsePublicKey ((rsaBlob 65537 32769).dropLast) = .err ∧
+    parsePublicKey (ed25519Blob (List.replicate 31 7)) = .err := by decide
+/-- a modulus written without the zero octet is a NEGATIVE number to the reader; its size is that of the magnitude -/
+example : parsePublicKey (str (strBytes "ssh-rsa") ++ str [1, 0, 1] ++ str [128, 1]) = .ok sshRsa (.rsa 65537 (-32767)) := by decide
+end sshwitnesses
 
 end WhatIs.C02
